@@ -307,6 +307,7 @@ DEFAULTS = dict(
     pre_bet_delay=(0,),
     repeat_unchanged=0.1,
     trade_levels=(1, 1, 2, 3),
+    market_time_offsets=(30_000, 600_000),
 )
 
 
@@ -340,7 +341,7 @@ class Director:
             each_way_divisor=rng.choice((4, 5)) if market_type == "EACH_WAY" else None,
             bet_delay=rng.choice(p["pre_bet_delay"]),
             version=rng.randint(1000, 9000),
-            market_time_ms=t0 + rng.choice((30_000, 600_000)),
+            market_time_ms=t0 + rng.choice(p["market_time_offsets"]),
         )
         self.t = t0
         self.mid = {k: rng.randint(20, 250) for k in self.mf.keys}  # ladder index of the mid
